@@ -105,6 +105,15 @@ def judge_vm(res, code, cfg, feats, r):
                       "(limit %d), although the thread's own counter never exceeded %d: gas not inherited on fork?" % (
                           mon["max_gas_accounted"], G, mon["max_gas_before"]), case)
         return True
+    # and on the opcodes themselves: the declared minimum costs of the instructions executed along the path
+    if mon.get("max_opgas_before", 0) > G:
+        res.violation("c03:step-after-gas-limit:opcode-accounting",
+                      "the instructions executed along one path before the step at %d have a declared minimum cost of %d "
+                      "(limit %d), although the thread's own counter never exceeded %d: an instruction under-charged?" % (
+                          mon.get("max_opgas_at", -1), mon["max_opgas_before"], G, mon["max_gas_before"]), case)
+        return True
+    if mon.get("max_opgas_before", 0) > 0:
+        res.count("runs_with_opcode_gas_accounting")
     return False
 
 
